@@ -69,11 +69,11 @@ func (p *pnProbe) DeleteMomentum(dm *nom.DetailedMomentum) {
 type pnListeners struct {
 	c      *Ctx
 	ch     chain.Chain
-	events []pnEvent   // what the probes were told since the last verification, in call order
-	reg    []*pnProbe  // probes that are registered, in registration order
-	fixed  int         // the first `fixed` entries of reg at creation time are readers: never unregistered
-	idle   []*pnProbe  // probes that were registered and then unregistered
-	ops    []string    // every register / unregister operation on this node so far
+	events []pnEvent    // what the probes were told since the last verification, in call order
+	reg    []*pnProbe   // probes that are registered, in registration order
+	fixed  int          // the first `fixed` entries of reg at creation time are readers: never unregistered
+	idle   []*pnProbe   // probes that were registered and then unregistered
+	ops    []string     // every register / unregister operation on this node so far
 	path   []types.Hash // the node's chain by height as read from its ledger at the last verification
 	serial int
 	off    bool
